@@ -883,3 +883,133 @@ func minInt(a, b int) int {
 	}
 	return b
 }
+
+// ---------- G5: values whose encoding lies between 65536 and 262144 octets (the 16-bit word count still fits,
+// 16-bit octet arithmetic does not), and element counts around the 8-bit wrap (256..288) ----------
+
+var bigKinds = []string{"CCFB", "XR", "SDES", "SR", "RR", "FIR", "TWCC", "RAW"}
+
+func genBig(r *Rng, kind string) rtcp.Packet {
+	switch kind {
+	case "CCFB":
+		v := &rtcp.CCFeedbackReport{SenderSSRC: uint32(r.Bits(32, 32)), ReportTimestamp: uint32(r.Bits(32, 32))}
+		nb := r.Pick(2, 3, 4)
+		for i := 0; i < nb; i++ {
+			n := r.Pick(16384, 16372, 16383, 12000)
+			b := rtcp.CCFeedbackReportBlock{MediaSSRC: uint32(r.Bits(32, 32)), BeginSequence: uint16(r.Intn(65536 - n))}
+			for j := 0; j < n; j++ {
+				b.MetricBlocks = append(b.MetricBlocks, genMetric(r, false))
+			}
+			v.ReportBlocks = append(v.ReportBlocks, b)
+		}
+		return v
+	case "XR":
+		v := &rtcp.ExtendedReport{SenderSSRC: uint32(r.Bits(32, 32))}
+		for n := r.Pick(1, 2, 3); n > 0; n-- {
+			switch r.Intn(3) {
+			case 0:
+				b := &rtcp.LossRLEReportBlock{}
+				b.SSRC = uint32(r.Bits(32, 32))
+				for j := 2 * r.Pick(16384, 20000, 30000); j > 0; j-- {
+					b.Chunks = append(b.Chunks, rtcp.Chunk(r.Bits(16, 16)))
+				}
+				v.Reports = append(v.Reports, b)
+			case 1:
+				b := &rtcp.PacketReceiptTimesReportBlock{}
+				b.SSRC = uint32(r.Bits(32, 32))
+				for j := r.Pick(16384, 20000, 30000); j > 0; j-- {
+					b.ReceiptTime = append(b.ReceiptTime, uint32(r.Bits(32, 32)))
+				}
+				v.Reports = append(v.Reports, b)
+			case 2:
+				b := &rtcp.UnknownReportBlock{Bytes: r.Bytes(4 * r.Pick(16384, 20000))}
+				b.XRHeader.BlockType = rtcp.BlockTypeType(r.Pick(0, 8, 200))
+				v.Reports = append(v.Reports, b)
+			}
+		}
+		return v
+	case "SDES":
+		v := &rtcp.SourceDescription{}
+		for i := 0; i < 31; i++ {
+			c := rtcp.SourceDescriptionChunk{Source: uint32(r.Bits(32, 32))}
+			for j := r.Pick(9, 10, 12); j > 0; j-- {
+				c.Items = append(c.Items, rtcp.SourceDescriptionItem{Type: rtcp.SDESType(1 + r.Intn(8)), Text: string(r.Bytes(r.Pick(253, 254, 255)))})
+			}
+			v.Chunks = append(v.Chunks, c)
+		}
+		return v
+	case "SR":
+		return &rtcp.SenderReport{SSRC: uint32(r.Bits(32, 32)), NTPTime: r.Bits(64, 64), Reports: genRReps(r, false), ProfileExtensions: r.Bytes(4 * r.Pick(16384, 16380, 40000))}
+	case "RR":
+		return &rtcp.ReceiverReport{SSRC: uint32(r.Bits(32, 32)), Reports: genRReps(r, false), ProfileExtensions: r.Bytes(4 * r.Pick(16384, 16380, 40000))}
+	case "FIR":
+		v := &rtcp.FullIntraRequest{SenderSSRC: uint32(r.Bits(32, 32)), MediaSSRC: uint32(r.Bits(32, 32))}
+		for n := r.Pick(8190, 8191, 12000); n > 0; n-- {
+			v.FIR = append(v.FIR, rtcp.FIREntry{SSRC: uint32(r.Bits(32, 32)), SequenceNumber: uint8(r.Bits(8, 8))})
+		}
+		return v
+	case "TWCC":
+		t := &rtcp.TransportLayerCC{SenderSSRC: uint32(r.Bits(32, 32)), MediaSSRC: uint32(r.Bits(32, 32)),
+			BaseSequenceNumber: uint16(r.Bits(16, 16)), ReferenceTime: uint32(r.Bits(24, 24)), FbPktCount: uint8(r.Bits(8, 8))}
+		count := r.Pick(40000, 65535, 65534)
+		left := count
+		for left > 0 {
+			n := 8191
+			if n > left {
+				n = left
+			}
+			t.PacketChunks = append(t.PacketChunks, &rtcp.RunLengthChunk{Type: 0, PacketStatusSymbol: 2, RunLength: uint16(n)})
+			left -= n
+		}
+		for i := 0; i < count; i++ {
+			t.RecvDeltas = append(t.RecvDeltas, genDelta(r, 2, false))
+		}
+		t.PacketStatusCount = uint16(count)
+		size := t.MarshalSize()
+		pl := int(rtcp.VerifTWCCPacketLen(t))
+		t.Header = rtcp.Header{Padding: size != pl, Count: rtcp.FormatTCC, Type: rtcp.TypeTransportSpecificFeedback, Length: uint16(size/4 - 1)}
+		return t
+	case "RAW":
+		h := rtcp.Header{Count: uint8(r.Bits(5, 5)), Type: rtcp.PacketType(r.Pick(192, 199, 208, 255))}
+		body := r.Bytes(4 * r.Pick(16383, 16384, 30000, 65535))
+		h.Length = uint16(len(body) / 4)
+		hb, _ := h.Marshal()
+		raw := rtcp.RawPacket(append(hb, body...))
+		return &raw
+	}
+	panic("genBig " + kind)
+}
+
+var wrapKinds = []string{"BYE", "SR", "RR", "SDES"}
+
+// element counts whose low 8 (or 5) bits look small: 256..288, 32..34
+func genCountWrap(r *Rng, kind string) rtcp.Packet {
+	n := r.Pick(32, 33, 63, 64, 255, 256, 257, 258, 271, 287, 288, 512, 513)
+	switch kind {
+	case "BYE":
+		v := &rtcp.Goodbye{}
+		for i := 0; i < n; i++ {
+			v.Sources = append(v.Sources, uint32(r.Bits(32, 32)))
+		}
+		return v
+	case "SR":
+		v := &rtcp.SenderReport{SSRC: uint32(r.Bits(32, 32))}
+		for i := 0; i < n; i++ {
+			v.Reports = append(v.Reports, genRRep(r, false))
+		}
+		return v
+	case "RR":
+		v := &rtcp.ReceiverReport{SSRC: uint32(r.Bits(32, 32))}
+		for i := 0; i < n; i++ {
+			v.Reports = append(v.Reports, genRRep(r, false))
+		}
+		return v
+	case "SDES":
+		v := &rtcp.SourceDescription{}
+		for i := 0; i < n; i++ {
+			v.Chunks = append(v.Chunks, rtcp.SourceDescriptionChunk{Source: uint32(r.Bits(32, 32))})
+		}
+		return v
+	}
+	panic("genCountWrap " + kind)
+}
